@@ -41,7 +41,12 @@ def gen_history(rng, idx, nsteps):
         fals = [1 if rng.random() < pfals[i] else 0 for i in range(n)]
         durs = [dur(i) for i in range(n)]
         steps.append([act, fals, durs])
-    return dict(name=f"hist{idx}", kind=kind, B=B, n=n, opt=opt, steps=steps)
+    # BasicChecker view of the same table: at most one optional requirement is the blanket collision check, some
+    # mandatory ones are pairwise IntersectionRequirements (>= 3 of them keep the blanket check when icc is set)
+    opts = [i for i in range(n) if opt[i]]
+    blanket = rng.choice(opts) if opts and rng.random() < 0.8 else -1
+    inter = [0 if opt[i] else (1 if rng.random() < 0.6 else 0) for i in range(n)]
+    return dict(name=f"hist{idx}", kind=kind, B=B, n=n, opt=opt, steps=steps, blanket=blanket, inter=inter, icc=1 if rng.random() < 0.7 else 0)
 
 
 def history_cmds(h):
@@ -85,11 +90,51 @@ def fetch_scripted(exe, hists):
     for h in hists:
         cmds += history_cmds(h)
     model = common.run_driver(exe, cmds)
-    impl = common.run_impl("impl_c02.py", dict(kind="scripted", histories=hists))["results"]
-    return model, impl
+    res = common.run_impl("impl_c02.py", dict(kind="scripted", histories=hists))
+    bcmds, where = [], []
+    for hi, h in enumerate(hists):
+        if "inter" not in h:
+            continue
+        for k, (act, fals, _) in enumerate(h["steps"][:60]):
+            t = [str(h["icc"]), str(h["n"])]
+            for i in range(h["n"]):
+                t += [str(h["opt"][i]), str(act[i]), str(fals[i]), "1" if i == h["blanket"] else "0", str(h["inter"][i])]
+            bcmds.append("BASIC " + " ".join(t))
+            where.append((hi, k))
+    bmodel = dict(zip(where, common.run_driver(exe, bcmds))) if bcmds else {}
+    return model, (res["results"], res.get("basic"), bmodel)
+
+
+def check_basic(c, hists, basic, bmodel):
+    """the real BasicChecker vs the extracted basic_check, and the property oracle on what it did"""
+    for hi, h in enumerate(hists):
+        b = (basic or [None] * len(hists))[hi]
+        if b is None:
+            continue
+        c.hist("basic:histories")
+        kept_blanket = h["blanket"] in b["kept"]
+        c.hist("basic:blanket-kept" if kept_blanket else "basic:blanket-dropped")
+        for k, v in enumerate(b["verdicts"]):
+            act, fals, _ = h["steps"][k]
+            c.count(n=1)
+            case = dict(history=dict(h, steps=h["steps"][:k + 1]), step=k, basic_impl=v, basic_model=bmodel.get((hi, k)), kept=b["kept"])
+            if v == "accept":
+                missed = [i for i in range(h["n"]) if act[i] and not h["opt"][i] and fals[i]]
+                if missed:
+                    c.violation("accept-unsound", "the real BasicChecker accepted a sample that falsifies an active mandatory requirement", dict(case, falsified_mandatory=missed))
+            elif v.startswith("reject "):
+                r = int(v.split()[1])
+                if not (act[r] and fals[r]):
+                    c.violation("reject-unsound", "the real BasicChecker rejected because of a requirement that is inactive or not falsified", case)
+            if v != bmodel.get((hi, k)):
+                c.violation("correspondence", "BasicChecker verdict differs from the model basic_check", case)
+                break
+            c.hist("basic:" + v.split()[0])
 
 
 def check_scripted(c, hists, model, impl):
+    impl, basic, bmodel = impl
+    check_basic(c, hists, basic, bmodel)
     pos = 0
     for h, isteps in zip(hists, impl):
         pos += 1  # INIT
@@ -466,7 +511,7 @@ def main():
     exe = common.build_ocaml(PID)
     quick = c.tier == "quick"
     rng = c.rng
-    nh, ns, npg, ngeo = (150, 200, 36, 28) if quick else (2400, 200, 600, 500)
+    nh, ns, npg, ngeo = (150, 200, 36, 28) if quick else (2400, 200, 500, 300)
     hists = [gen_history(rng, i, ns) for i in range(nh)]
     jobs = []
     corpus_dir = os.path.join(common.VERIF, "corpus", PID)
